@@ -59,8 +59,13 @@ stats_tab = (f"Totals (generated): {len(ms)} seeded property-breaking changes - 
              f"{n_miss} currently not caught, {n_obs} neutralised by a later /repo fix and kept for the record; "
              f"{len(bs)} property-preserving changes - {b_q0} left the check quiet as it stood, {b_q1} quiet after an "
              f"over-strict clause was restated, {b_no} currently alarming or no longer applicable (adopted as a fix).")
+rows = ['| id | tier | seed | states | transitions | records validated against the implementation | wall s |', '|---|---|---|---|---|---|---|']
+for p in sorted(glob.glob(HERE + '/evidence/C*.json')):
+    e = json.load(open(p)); c = e['coverage']
+    rows.append(f"| {e['property_id']} | {e['tier']} | {e['seed']} | {c.get('states', '')} | {c.get('transitions', '')} | {c.get('traces_validated_against_impl', '')} | {e['wall_s']} |")
+evid_tab = '\n'.join(rows)
 d = open(HERE + '/DESIGN.md').read()
-for key, tab in (('FIXES', fix_tab), ('OPEN', open_tab), ('SEEDED', seed_tab), ('BENIGN', benign_tab), ('STATS', stats_tab)):
+for key, tab in (('EVID', evid_tab), ('FIXES', fix_tab), ('OPEN', open_tab), ('SEEDED', seed_tab), ('BENIGN', benign_tab), ('STATS', stats_tab)):
     a, b = f'<!-- GEN:{key}:BEGIN -->', f'<!-- GEN:{key}:END -->'
     if a in d:
         d = d[:d.index(a) + len(a)] + '\n' + tab + '\n' + d[d.index(b):]
